@@ -86,6 +86,10 @@ type Field struct {
 	// MinV..MaxV is the version range; MaxV == -1 means open. A field that is only
 	// tagged has MinV 0, MaxV -1.
 	MinV, MaxV int
+	// HasVersion is set when the line carries a version comment; a field without one
+	// is "valid for all versions of a struct" (also versions outside 0..max that a
+	// decoder of a 'with version field' type may read from hostile bytes).
+	HasVersion bool
 	// Tag is -1 or the tag number; tagged fields exist only at flexible versions.
 	Tag int
 	// HasDefault and Default hold the literal written in parentheses.
@@ -143,7 +147,12 @@ type Schema struct {
 func (s *Struct) Flexible(v int) bool { return s.FlexibleAt >= 0 && v >= s.FlexibleAt }
 
 // InRange reports whether the field's version range contains v.
-func (f *Field) InRange(v int) bool { return v >= f.MinV && (f.MaxV < 0 || v <= f.MaxV) }
+func (f *Field) InRange(v int) bool {
+	if !f.HasVersion {
+		return true
+	}
+	return v >= f.MinV && (f.MaxV < 0 || v <= f.MaxV)
+}
 
 // Present reports whether the field is on the wire (or may be, for tagged fields) of
 // struct s at version v.
